@@ -206,7 +206,7 @@ func (g *Gen) Good(t *ast.Type, variant int) Val {
 		return g.minimalObject(def, 0)
 	}
 	switch def.Name {
-	case "Int", "IntID", "UintID":
+	case "Int", "IntID", "UintID", "I32":
 		return vInt(strconv.Itoa(11 + variant))
 	case "Float":
 		return Val{K: "float", Raw: strconv.Itoa(3+variant) + ".25"}
@@ -288,6 +288,7 @@ func scalarAlphabet() []LVal {
 		num("-1", "negative-integer"),
 		num("1", "integer"),
 		num("2147483647", "integer"),
+		num("-2147483648", "negative-integer"),
 		num("2147483648", "integer-beyond-int32"),
 		num("-2147483649", "integer-beyond-int32"),
 		num("9223372036854775807", "integer-beyond-int32"),
@@ -403,6 +404,7 @@ func (g *Gen) Cases(p Position, reduced bool) []Case {
 	// small alphabet for the default-value / non-null-variable variants
 	small := []LVal{alpha[0], alpha[1], {"good", "valid", g.Good(p.Type, 1)}, {`"abc"`, "string", vStr("abc")}, {"1.5", "float", Val{K: "float", Raw: "1.5"}}, {"{}", "empty-object", vObj()}}
 
+	nestedVarOK := len(p.Steps) > 0 && !p.Steps[len(p.Steps)-1].Single
 	for _, lv := range alpha {
 		// (a) literal
 		if av, ok := g.Wrap(p.Arg.Type, p.Steps, lv.V); ok {
@@ -418,8 +420,9 @@ func (g *Gen) Cases(p Position, reduced bool) []Case {
 			}
 			emit("variable", lv, "query($v: "+p.Arg.Type.String()+") { "+g.field(p, "$v")+" }", vars)
 		}
-		// (c) a variable at the position inside a literal argument
-		if len(p.Steps) > 0 {
+		// (c) a variable at the position inside a literal argument (a variable of the element
+		// type cannot stand where the list is expected, so not for the single-for-list step)
+		if nestedVarOK {
 			if av, ok := g.Wrap(p.Arg.Type, p.Steps, Val{K: "var", Raw: "v"}); ok {
 				vars := "{}"
 				if lv.V.K != "absent" {
@@ -447,7 +450,13 @@ func (g *Gen) Cases(p Position, reduced bool) []Case {
 				nn := *p.Arg.Type
 				nn.NonNull = true
 				emit("nonnull-variable", lv, "query($v: "+nn.String()+") { "+g.field(p, "$v")+" }", vars)
+			} else if p.HasDefault {
+				// a nullable variable is allowed at a non-null argument that has a default
+				emit("nullable-variable-at-defaulted-nonnull", lv, "query($v: "+nullable.String()+") { "+g.field(p, "$v")+" }", vars)
 			}
+			continue
+		}
+		if !nestedVarOK {
 			continue
 		}
 		av, ok := g.Wrap(p.Arg.Type, p.Steps, Val{K: "var", Raw: "v"})
